@@ -46,7 +46,7 @@ def main(tier, replay=None):
     if exe is None:
         return c.finish(TRUSTED, no_input_break="extraction/OCaml build of the Derive model failed: " + err[-1500:])
 
-    n = 40 if tier == "quick" else 1500
+    n = 40 if tier == "quick" else 500
     impl = os.path.join(c.workdir, "impl.txt")
     if replay:
         rp = json.load(open(replay))
